@@ -44,8 +44,12 @@ structure DataWorld (V : Type) extends World V where
   readMapping : V → M V
   /-- every key of the mapping is a `str` -/
   strKeyed : V → Bool
-  /-- keyword unpacking in `cls.__init__(inst, **data)` of a plain string-keyed dict: cannot fail -/
+  /-- keyword unpacking in `cls.__init__(inst, **data)` of a plain string-keyed dict.  The generated `__init__`
+  has no named parameters (`def __init__(*args, **kwargs)`, fixes/C04-container-protocol-and-init-names), so
+  binding cannot fail; before the fix the keys `_obj_self` / `_d` collided with its parameters -/
   unpack : V → List (Nat × V)
+  /-- the mapping has a key `_obj_self` (legacy: "got multiple values for argument '_obj_self'") -/
+  reservedKey : V → Bool
   /-- `value.get(discriminator) in discriminator_map` → the selected type, field.py:1042-1044 -/
   discLookup : Nat → V → M (Option Ty)
   noInput : Nat → V → Bool
@@ -88,9 +92,11 @@ def fieldConvert (W : DataWorld V) (o : Opts) (f : FieldDecl V) (t : Ty) (v : V)
         -- a required field cannot be excluded
         handleError o err
         pure (PV.ofOption f.default)
-      else if asAbsent then pure .excluded      -- the caller handles the field as one that was not given
-      else pure (PV.ofOption f.default)
-    | .preserve => pure (.val v)
+      else do
+        W.warn Site.fieldValue
+        if asAbsent then pure .excluded      -- the caller handles the field as one that was not given
+        else pure (PV.ofOption f.default)
+    | .preserve => do W.warn Site.fieldValue; pure (.val v)
     | .throw => do
       handleError o err
       pure .unprovided)
@@ -132,8 +138,8 @@ def parseAddition (W : DataWorld V) (o : Opts) (P : ParserDecl V) (key : Nat) (v
         tryExcept (do let y ← isolated (W.conv t v); pure (some y)) (fun e => do
           let err := wrap Site.addition e (some key)
           match o.invalidValues with
-          | .exclude => pure none
-          | .preserve => pure (some v)
+          | .exclude => do W.warn Site.addition; pure none
+          | .preserve => do W.warn Site.addition; pure (some v)
           | .throw => do handleError o err; pure (some v))
 
 /-! ### alias conflicts — base.py:455-459, 548-555 (fixes/C04-alias-conflict-compare) -/
@@ -379,6 +385,8 @@ data class (`transform_dataclass`, with the enclosing context): everything below
 def initDataclass (W : DataWorld V) (L : Legacy) (declared : Opts) (given ctx : Option Opts) (P : ParserDecl V)
     (postInit : M Unit) (data : V) (schema : Bool := false) : M (List (Nat × V)) := do
   let o := runningOpts declared given ctx
+  -- `options.make_context(cls, context=...)` (cls.py:597-600): the new context may refuse the depth, before the try
+  enterCheck W.toWorld 0
   let d ← tryExcept (do
       let d ← if W.isMapping data then pure data
         else if o.noExplicitCast then raise (builtinExc K.typeError)
@@ -388,6 +396,8 @@ def initDataclass (W : DataWorld V) (L : Legacy) (declared : Opts) (given ctx : 
     (fun e => raise (wrap Site.initDataclass e))
   -- legacy: `cls.__init__(inst, **data)` raises the interpreter's bare "keywords must be strings"
   if L.nonStrKeys && !o.castKeywordStr && !W.strKeyed d then raise (builtinExc K.typeError) else
+  -- legacy: `__init__(_obj_self, _d=None, **kwargs)` got `_obj_self` twice
+  if L.initNamedParams && W.reservedKey d then raise (builtinExc K.typeError) else
   classInit W L o P postInit (W.unpack d) schema
 
 /-! ### FunctionParser — func.py:576-712, 933-954 -/
@@ -411,8 +421,8 @@ def parsePosType (W : DataWorld V) (o : Opts) (F : FuncDecl V) (i : Nat) (v : V)
     tryExcept (do let y ← isolated (W.conv t v); pure (some y)) (fun e => do
       let err := wrap Site.posType e (some i)
       match o.invalidItems with
-      | .preserve => pure (some v)
-      | .exclude => pure none
+      | .preserve => do W.warn Site.posType; pure (some v)
+      | .exclude => do W.warn Site.posType; pure none
       | .throw => do handleError o err; pure (some v))
 
 /-- step 1 of parse_params: the given positional arguments, func.py:616-644 -/
